@@ -8,18 +8,18 @@ Lemma entity_amp : entity [97;109;112;59] = Some [38]. Proof. vm_compute. reflex
 Lemma entity_lt : entity [108;116;59] = Some [60]. Proof. vm_compute. reflexivity. Qed.
 Lemma entity_gt : entity [103;116;59] = Some [62]. Proof. vm_compute. reflexivity. Qed.
 
-Lemma unescape_entity_amp rest : unescape_entity false ([38;97;109;112;59] ++ rest) = ([38], rest).
-Proof. cbn -[entity]. change SEMI with 59. rewrite entity_amp. reflexivity. Qed.
-Lemma unescape_entity_lt rest : unescape_entity false ([38;108;116;59] ++ rest) = ([60], rest).
-Proof. cbn -[entity]. change SEMI with 59. rewrite entity_lt. reflexivity. Qed.
-Lemma unescape_entity_gt rest : unescape_entity false ([38;103;116;59] ++ rest) = ([62], rest).
-Proof. cbn -[entity]. change SEMI with 59. rewrite entity_gt. reflexivity. Qed.
-Lemma unescape_entity_39 rest : unescape_entity false ([38;35;51;57;59] ++ rest) = ([39], rest).
-Proof. reflexivity. Qed.
-Lemma unescape_entity_34 rest : unescape_entity false ([38;35;51;52;59] ++ rest) = ([34], rest).
-Proof. reflexivity. Qed.
-Lemma unescape_entity_13 rest : unescape_entity false ([38;35;49;51;59] ++ rest) = ([13], rest).
-Proof. reflexivity. Qed.
+Lemma unescape_entity_amp b rest : unescape_entity b ([38;97;109;112;59] ++ rest) = ([38], rest).
+Proof. destruct b; cbn -[entity]; change SEMI with 59; rewrite entity_amp; reflexivity. Qed.
+Lemma unescape_entity_lt b rest : unescape_entity b ([38;108;116;59] ++ rest) = ([60], rest).
+Proof. destruct b; cbn -[entity]; change SEMI with 59; rewrite entity_lt; reflexivity. Qed.
+Lemma unescape_entity_gt b rest : unescape_entity b ([38;103;116;59] ++ rest) = ([62], rest).
+Proof. destruct b; cbn -[entity]; change SEMI with 59; rewrite entity_gt; reflexivity. Qed.
+Lemma unescape_entity_39 b rest : unescape_entity b ([38;35;51;57;59] ++ rest) = ([39], rest).
+Proof. destruct b; reflexivity. Qed.
+Lemma unescape_entity_34 b rest : unescape_entity b ([38;35;51;52;59] ++ rest) = ([34], rest).
+Proof. destruct b; reflexivity. Qed.
+Lemma unescape_entity_13 b rest : unescape_entity b ([38;35;49;51;59] ++ rest) = ([13], rest).
+Proof. destruct b; reflexivity. Qed.
 
 Lemma esc_byte_cases c :
   (c = 38 /\ esc_byte c = [38;97;109;112;59]) \/ (c = 39 /\ esc_byte c = [38;35;51;57;59]) \/
@@ -37,31 +37,31 @@ Proof.
   apply N.eqb_neq in E1. auto 10.
 Qed.
 
-Lemma unescape_fuel_escape : forall d fuel, (length d < fuel)%nat -> unescape_fuel fuel false (escape d) = d.
+Lemma unescape_fuel_escape : forall b d fuel, (length d < fuel)%nat -> unescape_fuel fuel b (escape d) = d.
 Proof.
-  induction d as [|c d IH]; intros fuel Hf.
+  intros b. induction d as [|c d IH]; intros fuel Hf.
   - destruct fuel; [lia|]. reflexivity.
   - destruct fuel as [|fuel]; [simpl in Hf; lia|].
     assert (Hf' : (length d < fuel)%nat) by (simpl in Hf; lia).
     unfold escape. cbn [flat_map]. fold (escape d).
     destruct (esc_byte_cases c) as [[-> ->]|[[-> ->]|[[-> ->]|[[-> ->]|[[-> ->]|[[-> ->]|[Hne ->]]]]]]].
-    + change (unescape_fuel (S fuel) false ([38;97;109;112;59] ++ escape d))
-        with (let (o, rest) := unescape_entity false ([38;97;109;112;59] ++ escape d) in o ++ unescape_fuel fuel false rest).
+    + change (unescape_fuel (S fuel) b ([38;97;109;112;59] ++ escape d))
+        with (let (o, rest) := unescape_entity b ([38;97;109;112;59] ++ escape d) in o ++ unescape_fuel fuel b rest).
       rewrite unescape_entity_amp. cbn [app]. rewrite IH; auto.
-    + change (unescape_fuel (S fuel) false ([38;35;51;57;59] ++ escape d))
-        with (let (o, rest) := unescape_entity false ([38;35;51;57;59] ++ escape d) in o ++ unescape_fuel fuel false rest).
+    + change (unescape_fuel (S fuel) b ([38;35;51;57;59] ++ escape d))
+        with (let (o, rest) := unescape_entity b ([38;35;51;57;59] ++ escape d) in o ++ unescape_fuel fuel b rest).
       rewrite unescape_entity_39. cbn [app]. rewrite IH; auto.
-    + change (unescape_fuel (S fuel) false ([38;108;116;59] ++ escape d))
-        with (let (o, rest) := unescape_entity false ([38;108;116;59] ++ escape d) in o ++ unescape_fuel fuel false rest).
+    + change (unescape_fuel (S fuel) b ([38;108;116;59] ++ escape d))
+        with (let (o, rest) := unescape_entity b ([38;108;116;59] ++ escape d) in o ++ unescape_fuel fuel b rest).
       rewrite unescape_entity_lt. cbn [app]. rewrite IH; auto.
-    + change (unescape_fuel (S fuel) false ([38;103;116;59] ++ escape d))
-        with (let (o, rest) := unescape_entity false ([38;103;116;59] ++ escape d) in o ++ unescape_fuel fuel false rest).
+    + change (unescape_fuel (S fuel) b ([38;103;116;59] ++ escape d))
+        with (let (o, rest) := unescape_entity b ([38;103;116;59] ++ escape d) in o ++ unescape_fuel fuel b rest).
       rewrite unescape_entity_gt. cbn [app]. rewrite IH; auto.
-    + change (unescape_fuel (S fuel) false ([38;35;51;52;59] ++ escape d))
-        with (let (o, rest) := unescape_entity false ([38;35;51;52;59] ++ escape d) in o ++ unescape_fuel fuel false rest).
+    + change (unescape_fuel (S fuel) b ([38;35;51;52;59] ++ escape d))
+        with (let (o, rest) := unescape_entity b ([38;35;51;52;59] ++ escape d) in o ++ unescape_fuel fuel b rest).
       rewrite unescape_entity_34. cbn [app]. rewrite IH; auto.
-    + change (unescape_fuel (S fuel) false ([38;35;49;51;59] ++ escape d))
-        with (let (o, rest) := unescape_entity false ([38;35;49;51;59] ++ escape d) in o ++ unescape_fuel fuel false rest).
+    + change (unescape_fuel (S fuel) b ([38;35;49;51;59] ++ escape d))
+        with (let (o, rest) := unescape_entity b ([38;35;49;51;59] ++ escape d) in o ++ unescape_fuel fuel b rest).
       rewrite unescape_entity_13. cbn [app]. rewrite IH; auto.
     + cbn [app unescape_fuel]. assert ((c =? AMP) = false) as -> by (apply N.eqb_neq; exact Hne).
       rewrite IH; auto.
@@ -76,10 +76,13 @@ Proof.
 Qed.
 
 (* html.UnescapeString(html.EscapeString(d)) = d, for every byte string *)
-Theorem unescape_escape : forall d, unescape false (escape d) = d.
+Theorem unescape_escape_gen : forall b d, unescape b (escape d) = d.
 Proof.
-  intros d. unfold unescape. apply unescape_fuel_escape. pose proof (escape_length d). lia.
+  intros b d. unfold unescape. apply unescape_fuel_escape. pose proof (escape_length d). lia.
 Qed.
+
+Theorem unescape_escape : forall d, unescape false (escape d) = d.
+Proof. apply unescape_escape_gen. Qed.
 
 (* the escaped form contains none of the characters that could start or end markup *)
 Theorem escape_inert : forall d c, In c (escape d) -> c <> 60 /\ c <> 62 /\ c <> 34 /\ c <> 39 /\ c <> 13.
